@@ -60,11 +60,11 @@ Recycle(t) ==
   /\ UNCHANGED <<pstate, hasbuf, cont, deleted, count, rank, nold, uaf, crashed>>
   /\ Lab(t, "Recycle")
 
-Explained ==
-  LET e == Trace[l] IN
+\* the action named by log line e, with the logged arguments
+Act(e) ==
   IF e.a = "reset" THEN Load(e.s)
   ELSE LET t == ThreadOf(e.t) IN
-       /\ CASE e.a \in {"AddBegin", "FinBegin", "ExpBegin", "DelBegin", "Read", "Touch", "Age"}
+       CASE e.a \in {"AddBegin", "FinBegin", "ExpBegin", "DelBegin", "Read", "Touch", "Age"}
                  -> "op" \in DOMAIN e /\ Begin(t, OpOf(e.op)) /\ last'.a = e.a
             [] e.a = "AddCrit"   -> AddCrit(t)
             [] e.a = "FinLock"   -> FinLock(t)
@@ -76,7 +76,22 @@ Explained ==
             [] e.a = "DelRelock" -> DelRelock(t)
             [] e.a = "Recycle"   -> Recycle(t)
             [] OTHER -> FALSE
-       /\ Match(e.s)
+
+Explained == LET e == Trace[l] IN Act(e) /\ (e.a = "reset" \/ Match(e.s))
+
+\* why a line is not explained: the action is not enabled at all, or it is
+\* but yields other values for the listed observables
+Diag ==
+  LET e == Trace[l] S == e.s
+      F(name, ok) == IF ok THEN "" ELSE name \o ","
+  IN IF ~ENABLED Act(e) THEN "noaction" ELSE
+       F("pstate",  ENABLED (Act(e) /\ pstate' = ObsPstate(S))) \o
+       F("hasbuf",  ENABLED (Act(e) /\ hasbuf' = ObsHasbuf(S))) \o
+       F("cont",    ENABLED (Act(e) /\ cont' = ObsCont(S))) \o
+       F("deleted", ENABLED (Act(e) /\ deleted' = S.deleted)) \o
+       F("count",   ENABLED (Act(e) /\ count' = S.count)) \o
+       F("pc",      ENABLED (Act(e) /\ pc' = ObsPc(S))) \o
+       F("ret",     ENABLED (Act(e) /\ \A t \in Threads : pc'[t] = "done" => ret'[t] = RetOf(S.ret[ToString(t)])))
 
 TraceInit ==
   /\ l = 1
@@ -92,7 +107,7 @@ TraceNext ==
   /\ l' = l + 1
   /\ \/ Explained
      \/ /\ ~ENABLED Explained
-        /\ PrintT("BADLINE " \o ToString(l))
+        /\ PrintT("BADLINE " \o ToString(l) \o " " \o Trace[l].a \o " " \o Diag)
         /\ UNCHANGED vars
 
 TraceSpec == TraceInit /\ [][TraceNext]_<<vars, l>>
